@@ -11,9 +11,10 @@
 //!                        registers `dk`, d with X/Z replaced by 0), and the RTL comb
 //!                        `mix` (a pass-through of the component's output, settled before the edge) = d_{k-1};
 //!                        after the last edge the simulator holds q_comp = d_N, q_rtl = known(d_N).
-//! Request: `run <seed> <config index>`; reply `echo=..;probe=a/b/c,..;final=q_comp/q_rtl`.
+//!   instance seed        `BuildCtx::seed()` of the echo instance = FNV-1a(base seed, "hx_t", "echo") (C32 `instance_seed`).
+//! Request: `run <seed> <config index>`; reply `echo=..;probe=a/b/c,..;final=q_comp/q_rtl;seed=..`.
 use crate::dom_svlv::gen_bits;
-use crate::dom_words::{ECHO, SEEN};
+use crate::dom_words::{ECHO, SEEDS, SEEN};
 use crate::rng::Rng;
 use crate::simutil::{bits_of, build, config_name, configs};
 use crate::util::{Log, Opts};
@@ -177,6 +178,7 @@ module hx_t {{
     let ir = build(&code, "hx_t", &config, true)?;
     let mut sim = Simulator::new(ir, None);
     SEEN.lock().unwrap().clear();
+    SEEDS.lock().unwrap().clear();
     PROBED.lock().unwrap().clear();
     sim.init_components(seed, "hx_t").map_err(|e| format!("init_components: {e}"))?;
     let event_map = build_event_map(&sim.ir.event_statements, &sim.ir.module_variables);
@@ -195,10 +197,16 @@ module hx_t {{
         sim.get_var("q_comp").map(|v| bits_of(&v)).unwrap_or("none".into()),
         sim.get_var("q_rtl").map(|v| bits_of(&v)).unwrap_or("none".into())
     );
-    let imp = format!("echo={};probe={};final={}", echo.join(","), probed.join(","), fin);
+    let iseed = SEEDS.lock().unwrap().last().copied();
+    let imp = format!("echo={};probe={};final={};seed={}", echo.join(","), probed.join(","), fin, iseed.map(|x| format!("{x:x}")).unwrap_or("none".into()));
     // oracle: straight from the driven values
     let o_probe: Vec<String> = ds[..n - 1].iter().map(|d| format!("{d}/{}/{d}", known(d))).collect();
-    let ora = format!("echo={};probe={};final={}/{}", ds.join(","), o_probe.join(","), ds[n - 1], known(&ds[n - 1]));
+    // per-instance seed: FNV-1a (64 bit) over base.to_le_bytes() ++ test name ++ instance name
+    let mut h: u64 = 14695981039346656037;
+    for b in seed.to_le_bytes().iter().chain(b"hx_t".iter()).chain(b"echo".iter()) {
+        h = (h ^ *b as u64).wrapping_mul((1u64 << 40) + (1 << 8) + 0xb3);
+    }
+    let ora = format!("echo={};probe={};final={}/{};seed={h:x}", ds.join(","), o_probe.join(","), ds[n - 1], known(&ds[n - 1]));
     log.count(&format!("config.{}", config_name(&config)));
     log.count(&format!("width.{}", if w <= 64 { "le64" } else if w <= 128 { "65-128" } else { "gt128" }));
     log.add("edges", n as u64);
